@@ -7,8 +7,11 @@ import (
 	"encoding/json"
 	"fmt"
 	"os"
+	"runtime"
+	"sort"
 	"strconv"
 	"strings"
+	"sync/atomic"
 	"testing"
 	"time"
 
@@ -24,11 +27,68 @@ type Job struct {
 	Verbose   bool            `json:"verbose,omitempty"`
 	Budget    float64         `json:"budget_s,omitempty"` // wall-clock budget for this worker
 	TraceFile string          `json:"trace_file,omitempty"`
+	RunLimitS float64         `json:"run_limit_s,omitempty"` // wall-clock watchdog per run
 }
 
 func emit(kind string, v interface{}) {
 	b, _ := json.Marshal(v)
 	fmt.Printf("@@VERIF %s %s\n", kind, b)
+}
+
+// watchdog: a run whose bubble never becomes quiescent again (a goroutine of the code under test waits for a
+// mutex whose holder is parked for good: synctest does not count mutex waits as durable) would hang the worker.
+// A goroutine outside every bubble watches the wall clock of the current run, dumps all stacks and exits.
+var runStarted atomic.Int64 // unix nanoseconds of the start of the current run (0: no run in progress)
+
+func wedgeClass(dump string) string {
+	var frames []string
+	for _, g := range strings.Split(dump, "\n\n") {
+		head := g
+		if i := strings.IndexByte(g, '\n'); i > 0 {
+			head = g[:i]
+		}
+		if !(strings.Contains(head, "chan send") || strings.Contains(head, "sync.Mutex.Lock") || strings.Contains(head, "sync.RWMutex")) {
+			continue
+		}
+		for _, line := range strings.Split(g, "\n") {
+			line = strings.TrimSpace(line)
+			if strings.HasPrefix(line, "github.com/IBM/TSS/") {
+				if i := strings.LastIndex(line, "("); i > 0 {
+					line = line[:i]
+				}
+				frames = append(frames, strings.TrimPrefix(line, "github.com/IBM/TSS/"))
+				break
+			}
+		}
+	}
+	sort.Strings(frames)
+	var uniq []string
+	for _, f := range frames {
+		if len(uniq) == 0 || uniq[len(uniq)-1] != f {
+			uniq = append(uniq, f)
+		}
+	}
+	if len(uniq) > 3 {
+		uniq = uniq[:3]
+	}
+	return "wedge/" + strings.Join(uniq, "|")
+}
+
+func startWatchdog(limit time.Duration) {
+	go func() {
+		for {
+			time.Sleep(500 * time.Millisecond)
+			st := runStarted.Load()
+			if st == 0 || time.Since(time.Unix(0, st)) < limit {
+				continue
+			}
+			buf := make([]byte, 4<<20)
+			n := runtime.Stack(buf, true)
+			dump := string(buf[:n])
+			fmt.Fprintf(os.Stderr, "VERIF-WEDGE class=%s\nthe run did not make progress for %v of wall-clock time: the simulated system never became quiescent again\n%s\n", wedgeClass(dump), limit, dump)
+			os.Exit(3)
+		}
+	}()
 }
 
 func TestWorker(t *testing.T) {
@@ -69,10 +129,17 @@ func TestWorker(t *testing.T) {
 		t.Fatalf("unknown property %q", job.Property)
 	}
 	start := time.Now()
+	limit := 25 * time.Second
+	if job.RunLimitS > 0 {
+		limit = time.Duration(job.RunLimitS * float64(time.Second))
+	}
+	startWatchdog(limit)
 	if job.Replay != nil {
 		emit("begin", map[string]interface{}{"seed": job.Replay.Seed})
 		job.Replay.TraceFile = job.TraceFile
+		runStarted.Store(time.Now().UnixNano())
 		res := c.Run(t, *job.Replay)
+		runStarted.Store(0)
 		emit("end", res)
 		return
 	}
@@ -82,7 +149,9 @@ func TestWorker(t *testing.T) {
 			break
 		}
 		emit("begin", map[string]interface{}{"seed": seed})
+		runStarted.Store(time.Now().UnixNano())
 		res := c.Run(t, checks.RunSpec{Property: job.Property, Seed: seed, Index: job.First + pos, Tier: job.Tier})
+		runStarted.Store(0)
 		res.Index = job.First + pos
 		if len(res.Violations) == 0 && !job.Verbose {
 			res.Actions = nil
